@@ -238,6 +238,9 @@ def check_rejection_history(pb, opts, out, lls_all, events, ll_lib, expect_lls=T
         if len(np.unique(idx)) != len(idx) or idx.min() < 0 or idx.max() >= N:
             bad.append(("evaluation-order-invalid", "shuffled evaluation order repeats or leaves the library"))
             return bad, info
+        if np.isscalar(choices[0].get("a")) and int(choices[0]["a"]) != N:
+            bad.append(("shuffle-not-over-whole-library", "randomize_prior_order drew its %d rows from the first %s rows, "
+                        "the library has %d" % (n_eval, choices[0]["a"], N)))
     elif idx_inmem is None:
         idx = np.arange(n_eval)
     if len(unis) != 1 or np.size(unis[0]["result"]) != n_eval:
